@@ -832,7 +832,8 @@ spif_ustr_trim(spif_ustr_t self)
     end = self->s + self->len - 1;
     for (; isspace((spif_uchar_t) (*start)) && (start < end); start++);
     for (; isspace((spif_uchar_t) (*end)) && (start < end); end--);
-    if (start > end) {
+    if (isspace((spif_uchar_t) (*start))) {
+        /* The scans met on a blank:  there is nothing but whitespace. */
         return spif_ustr_done(self);
     }
     *(++end) = 0;
